@@ -158,12 +158,24 @@ def run_edge(c: dict) -> dict:
     if len(c.get("outs", [])) > 1:      # a hand-made producer: several outputs with the declared types the case lists
         t1 = t1.model_copy(update={"definition": t1.definition.model_copy(
             update={"output_schema": {str(i): t for i, t in enumerate(c["outs"])}})})
-    b0 = (JobBuilder().with_node("t1", t1)
-          .with_node("t2", TaskBuilder.from_callable(mkfunc(c["params"], "", c.get("decor")))))
+    tasks = {"t1": t1, "t2": TaskBuilder.from_callable(mkfunc(c["params"], "", c.get("decor")))}
+    present = c.get("present", ["t1", "t2"])        # the tasks that get added at all
+    edges_first = c.get("order", "nodes_first") == "edges_first"
+
+    def add_nodes(b):
+        for name in ("t1", "t2"):
+            if name in present:
+                b = b.with_node(name, tasks[name])
+        return b
+
+    def add_edges(b):
+        for e in c["edges"]:
+            b = b.with_edge(e["st"], e["dt"], e["into"] if e["mode"] == "kw" else int(e["into"]), e["so"])
+        return b
+
+    b0 = JobBuilder() if edges_first else add_nodes(JobBuilder())
     first_before, j0 = build(b0)
-    b = b0
-    for e in c["edges"]:
-        b = b.with_edge(e["st"], e["dt"], e["into"] if e["mode"] == "kw" else int(e["into"]), e["so"])
+    b = add_nodes(add_edges(b0)) if edges_first else add_edges(b0)
     final, _ = build(b)
     first_after = dump_job(j0) if j0 is not None else first_before
     first_rebuilt, _ = build(b0)
@@ -219,7 +231,8 @@ def run(ctx):
                 "set, frozenset, tuple, bytes, nested list/dict - compared by type and value; !Edge4: two and three distinct edges fanning out of one producer (one int output, or hand-made with "
                 "outputs int/str, str/int) in every order, from a pool of well-formed edges and one edge per fault (unknown "
                 "output, incompatible type, unknown parameter, unknown sink task); !Bind6: two or three successive with_values calls re-binding one or both positions and a "
-                "keyword already bound (the later call wins per position and name); !Edge3/!Bind3: callables that additionally have a positional-only parameter, *args (named "
+                "keyword already bound (the later call wins per position and name); !Edge5: one or two edges (keyword, positional, unknown output) with no task, only the "
+                "producer, only the consumer or both added, nodes before edges and edges before nodes; !Edge3/!Bind3: callables that additionally have a positional-only parameter, *args (named "
                 "'args' or like the dangling edge name) and/or **kwargs, with keyword edges named like those; !Edge2: two edges (consumer <= {consts['MaxP2']} parameters); all enumerated by TLC; non-trivial = "
                 "binds a value or has an edge; TLC evaluates Builder!Post on every (case, dumps of the builders' results)",
         "clauses": ["build_raised_on_dangling_sink_task", "build_raised_on_other_dangling_edge", "build_raised_on_unannotated_source",
